@@ -223,6 +223,9 @@ def sock_sendall(self, E, st, args, kwargs):
     r["out"] = z3.Concat(r["out"], args[0].t)
     r["sends"] = r.get("sends", 0) + 1
     _ev(st, r, "sendall", args[0])
+    hook = st.ghost.get("on_sendall")
+    if hook is not None:
+        hook(st, self, args[0])
     return outs + [Ev(st, NONE)]
 
 
@@ -289,3 +292,219 @@ class TLSContextV(V):
             st.ghost.setdefault("sockets", []).append(w)
             return outs + [Ev(st, w)]
         raise OutOfReach("tls context method " + name)
+
+
+# --------------------------------------------------------------------------- array-backed symbolic lists of bytes
+
+BARR = z3.ArraySort(z3.IntSort(), z3.StringSort())
+join_arr = z3.Function("join_bytes", BARR, z3.IntSort(), z3.StringSort())      # b"".join(list) for a list of symbolic length
+
+
+class BytesArrV(V):
+    """list[bytes] of symbolic length: heap[ref] = [Array(Int -> String), length]. Supports append, len,
+    truthiness, iteration, indexing by a constant or symbolic int, b"".join (uninterpreted join_bytes with
+    join_bytes(a, 0) == "" and join_bytes(store(a, n, x), n+1) == join_bytes(a, n) ++ x asserted on use)."""
+    kind = "bytesarr"
+
+    def __init__(self, ref):
+        self.ref = ref
+
+    def get(self, st):
+        return st.heap[self.ref]
+
+    def truth(self, E, st):
+        return self.get(st)[1] > 0
+
+    def length(self, E, st):
+        return self.get(st)[1]
+
+    def iter_view(self, E, st):
+        a, n = self.get(st)
+        return n, (lambda i: BytesV(a[i]))
+
+    def call_method(self, E, name, st, args, kwargs, fx, site):
+        a, n = self.get(st)
+        if name == "append" and isinstance(args[0], BytesV):
+            a2 = z3.Store(a, n, args[0].t)
+            st.assume(join_arr(a2, n + 1) == z3.Concat(join_arr(a, n), args[0].t))
+            st.heap[self.ref] = [a2, n + 1]
+            hook = st.ghost.get("on_bytes_append")
+            if hook is not None:
+                hook(E, st, self, args[0])
+            return [Ev(st, NONE)]
+        raise OutOfReach("bytes list method " + name)
+
+    def get_item(self, E, idx, st, fx):
+        a, n = self.get(st)
+        if not isinstance(idx, IntV):
+            raise OutOfReach("bytes list index kind")
+        out = []
+        i = idx.t
+        for b, ok in E.branch(st, z3.And(i >= -n, i < n)):
+            if ok:
+                out.append(Ev(b, BytesV(a[z3.If(i < 0, n + i, i)])))
+            else:
+                out.append(E.raise_(b, "IndexError", "list index out of range"))
+        return out
+
+    def join_with(self, E, sep, st):
+        s = z3.simplify(sep.t)
+        if not (z3.is_string_value(s) and s.as_string() == ""):
+            raise OutOfReach("join of symbolic list with a separator")
+        a, n = self.get(st)
+        st.assume(z3.Implies(n == 0, join_arr(a, n) == ""))
+        return [Ev(st, BytesV(join_arr(a, n)))]
+
+
+def new_bytesarr(st, arr=None, n=None):
+    arr = arr if arr is not None else z3.Const(fresh_name("arr"), BARR)
+    n = n if n is not None else z3.IntVal(0)
+    return BytesArrV(st.alloc([arr, n]))
+
+
+# --------------------------------------------------------------------------- symbolic lists / dicts of Python objects
+
+PARR = z3.ArraySort(z3.IntSort(), Py)
+
+
+class PyArrV(V):
+    """list of arbitrary Python values (injected into sort Py) of symbolic length: heap[ref] = [Array(Int -> Py), n].
+    `elem(i)` (optional) rebuilds the element as a typed value (or kind alternatives) when iterated."""
+    kind = "pyarr"
+
+    def __init__(self, ref, elem=None):
+        self.ref, self.elem = ref, elem
+
+    def get(self, st):
+        return st.heap[self.ref]
+
+    def truth(self, E, st):
+        return self.get(st)[1] > 0
+
+    def length(self, E, st):
+        return self.get(st)[1]
+
+    def iter_view(self, E, st):
+        a, n = self.get(st)
+        if self.elem is not None:
+            return n, self.elem
+        return n, (lambda i: OpaqueV(a[i]))
+
+    def call_method(self, E, name, st, args, kwargs, fx, site):
+        a, n = self.get(st)
+        if name == "append":
+            t = E.inject(args[0], st)
+            if t is None:
+                raise OutOfReach("append of %s to a symbolic list" % args[0].kind)
+            st.heap[self.ref] = [z3.Store(a, n, t), n + 1]
+            st.ghost["last_py_append"] = args[0]
+            return [Ev(st, NONE)]
+        raise OutOfReach("object list method " + name)
+
+
+def new_pyarr(st, arr=None, n=None, elem=None):
+    arr = arr if arr is not None else z3.Const(fresh_name("parr"), PARR)
+    n = n if n is not None else z3.IntVal(0)
+    return PyArrV(st.alloc([arr, n]), elem)
+
+
+class SymDictV(V):
+    """A caller-supplied dict of symbolic size, used only through .items() / .keys() / iteration / truthiness.
+    Keys are pairwise distinct (dict); key(i) and value(i) are prophecy functions of the position."""
+    kind = "symdict"
+
+    def __init__(self, n, key_elem, val_elem):
+        self.n, self.key_elem, self.val_elem = n, key_elem, val_elem
+
+    def truth(self, E, st):
+        return self.n > 0
+
+    def length(self, E, st):
+        return self.n
+
+    def call_method(self, E, name, st, args, kwargs, fx, site):
+        if name == "items":
+            return [Ev(st, DictItemsV(self))]
+        if name == "keys":
+            return [Ev(st, DictKeysV(self))]
+        raise OutOfReach("dict method %s on a symbolic dict" % name)
+
+    def iter_view(self, E, st):
+        return self.n, self.key_elem
+
+    def pytype(self, E, st):
+        return ClassV("dict")
+
+    def isinstance_of(self, E, cname):
+        return cname in ("dict", "object")
+
+
+class DictItemsV(V):
+    kind = "dictitems"
+
+    def __init__(self, d):
+        self.d = d
+
+    def iter_view(self, E, st):
+        d = self.d
+
+        def item(i):
+            ks, vs = d.key_elem(i), d.val_elem(i)
+            ks = ks if isinstance(ks, list) else [(ks, [], "key")]
+            vs = vs if isinstance(vs, list) else [(vs, [], "val")]
+            return [(TupleV([k, v]), kc + vc, kl + "," + vl) for k, kc, kl in ks for v, vc, vl in vs]
+        return d.n, item
+
+
+class DictKeysV(V):
+    kind = "dictkeys"
+
+    def __init__(self, d):
+        self.d = d
+
+    def iter_view(self, E, st):
+        return self.d.n, self.d.key_elem
+
+
+class SymMapV(V):
+    """A dict built by item assignment in a loop: heap[ref] = [Array(Py -> Py), count]; only d[k] = v is supported,
+    plus reads through .get / [] by the *verification code* (not by repository code)."""
+    kind = "symmap"
+
+    def __init__(self, ref):
+        self.ref = ref
+
+    def get(self, st):
+        return st.heap[self.ref]
+
+    def set_item(self, E, key, val, st, fx):
+        k, v = E.inject(key, st), E.inject(val, st)
+        if k is None or v is None:
+            raise OutOfReach("symbolic dict item assignment kinds")
+        a, n = self.get(st)
+        st.heap[self.ref] = [z3.Store(a, k, v), n + 1]
+        return [Ev(st, NONE)]
+
+
+def new_symmap(st, arr=None, n=None):
+    arr = arr if arr is not None else z3.Const(fresh_name("map"), z3.ArraySort(Py, Py))
+    return SymMapV(st.alloc([arr, n if n is not None else z3.IntVal(0)]))
+
+
+class ConstMapV(V):
+    """{k: c for k in keys}: every element of a symbolic list mapped to the same value."""
+    kind = "constmap"
+
+    def __init__(self, keys_arr, n, value):
+        self.keys_arr, self.n, self.value = keys_arr, n, value
+
+
+def comprehension_hook(E, e, it, st, fx):
+    """Comprehensions over symbolic lists that the engine can summarise."""
+    import ast as _ast
+    if isinstance(e, _ast.DictComp) and isinstance(it, PyArrV) and isinstance(e.generators[0].target, _ast.Name) \
+            and isinstance(e.key, _ast.Name) and e.key.id == e.generators[0].target.id and isinstance(e.value, _ast.Constant) \
+            and not e.generators[0].ifs:
+        a, n = it.get(st)
+        return [Ev(st, ConstMapV(a, n, E.const(e.value.value, st)))]
+    return None
